@@ -1,6 +1,7 @@
 package main
 
 import (
+	"go/token"
 	"strings"
 
 	"golang.org/x/tools/go/ssa"
@@ -86,7 +87,20 @@ func runC19(r *Report, p *Program) {
 	c19R2(h)
 }
 
+// c19R2: decided as a table over read segmentations (E10, c19R2Table); the control-flow formulation (c19R2Patterns)
+// is kept for reference and no longer registered.
 func c19R2(h H) {
+	r := h.r
+	r.Rule("R2", "what is recorded does not depend on read segmentation, as a table (E10): clientHelloConn.Read evaluated on a connection delivering one record (5 header bytes, 6 body bytes) followed by 3 bytes of the next one, cut into reads in eight ways (all at once, inside the header, at the header boundary, inside the body, byte by byte): in every segmentation the parser is handed exactly the 6 body bytes exactly once and the connection is marked done", 1)
+	bad, n := c19R2Table(h)
+	var pos token.Pos
+	if fn := h.p.Func(hs, "(*clientHelloConn).Read"); fn != nil {
+		pos = fn.Pos()
+	}
+	r.Check(bad == "", "R2", "httpserver.(*clientHelloConn).Read/segmentation-table", pos, "the ClientHello handed to the parser is the same however the peer's bytes were split across reads", sprintf("%d segmentations evaluated", n), bad)
+}
+
+func c19R2Patterns(h H) {
 	r := h.r
 	r.Rule("R2", "the hello buffer is only consumed when complete: in clientHelloConn.Read, after any call that consumes bytes from the accumulation buffer (bytes.Buffer Next/Read*/Truncate/Reset, io.ReadFull/ReadAtLeast on it) every path to a return either stores readHello = true or lies behind the non-nil edge of an error — never a plain 'need more bytes' return", 1)
 	fn := h.fn("R2", hs, "(*clientHelloConn).Read")
